@@ -64,6 +64,8 @@ fn param_schema(t: &str) -> Value {
         "::std::string::String" => json!({"type": "string"}),
         "i64" => json!({"type": "integer"}),
         "P" => json!({"$ref": "#/definitions/P"}),
+        // the definition that holds the annotated schema: a reference cycle through a parameter
+        "User" => json!({"$ref": "#/definitions/User"}),
         _ => panic!("param {}", t),
     }
 }
